@@ -849,6 +849,33 @@ pub fn f8_reject(rng: &mut Rng, name: &str) -> (Def, &'static str) {
             }
             cat = "ambiguity?";
         }
+        10 if rng.chance(1, 3) => {
+            // default priorities whose value hinges on one arm of the rule: an empty alternative (minimum 0), alternatives
+            // of which one is a complete prefix of another (regex-syntax factors the prefix out and leaves an empty
+            // alternative), open-ended counted repetitions, optional tails; next to a competitor whose priority equals the
+            // documented value, the value plus two, or lies in between
+            let (pat, rivals): (&str, &[&str]) = *rng.pick(&[
+                ("a[0-9]|a[0-9]b", &["a[0-9a-f]", "[a-z][0-9][a-z]", "a[0-9]b?c?"][..]),
+                ("x(ab|)", &["[u-z]", "xab", "x[a-c]{2}"][..]),
+                ("[0-9]+\\.[0-9]|[0-9]+\\.[0-9]f", &["[0-9]\\.[0-9a-f]f?", "[0-9][.][0-9]", "[0-9.]{3}"][..]),
+                ("(|k)m", &["[l-n]", "km", "[k-m]m"][..]),
+                ("[0-9]{2,}", &["[0-9][0-9a-f]", "[0-9]+", "[0-9]{2}x?"][..]),
+                ("a{3,}", &["aaa", "a+", "[a-c]{3}"][..]),
+                ("ab(c|cd|)", &["[a-b]{2}", "abc", "ab[c-d]?d?"][..]),
+                ("(q|qr|qrs)t", &["[p-r][s-u]", "qt", "q[r-t]+"][..]),
+            ]);
+            def.push(Pat::regex(pat, 0));
+            let r = *rng.pick(rivals);
+            if rng.chance(1, 4) && !r.contains('[') && !r.contains('+') && !r.contains('?') {
+                def.push(Pat::token(r, 0));
+            } else {
+                def.push(Pat::regex(r, 0));
+            }
+            if rng.chance(1, 3) {
+                def.push(Pat::regex(*rng.pick(rivals), 0).prio(rng.range(1, 8)));
+            }
+            cat = "ambiguity?";
+        }
         10 => {
             // default priorities only
             let cfg = ReCfg::basic();
